@@ -579,6 +579,52 @@ def stepC15 (ts : List String) : String :=
     | _, _, _ => "bad-op"
   | _ => "bad-op"
 
+def bits? (n : Nat) (ts : List String) : Option (Rfi.Mask × List String) :=
+  if ts.length < n then none else some ((ts.take n).map (· == "1"), ts.drop n)
+
+def ratPairs : List Rat → List (Rat × Rat)
+  | a :: b :: rest => (a, b) :: ratPairs rest
+  | _ => []
+
+/-- `C16 trace C <C freqs> nops { m nr <2nr bounds> | s <3C bits> | c <C bits> }…` → chan/user/stats/custom after each op -/
+def parseC16Ops (C : Nat) (freqs : List Rat) : Nat → List String → Option (List Rfi.Op)
+  | 0, [] => some []
+  | 0, _ => none
+  | k + 1, "m" :: nr :: rest => do
+    let nr ← nr.toNat?
+    let bs ← ratList? (rest.take (2 * nr))
+    let r ← parseC16Ops C freqs k (rest.drop (2 * nr))
+    pure (.mask freqs (ratPairs bs) :: r)
+  | k + 1, "s" :: rest => do
+    let (a, r1) ← bits? C rest; let (b, r2) ← bits? C r1; let (c, r3) ← bits? C r2
+    let r ← parseC16Ops C freqs k r3
+    pure (.method a b c :: r)
+  | k + 1, "c" :: rest => do
+    let (a, r1) ← bits? C rest
+    let r ← parseC16Ops C freqs k r1
+    pure (.funcn a :: r)
+  | _, _ => none
+
+def showMask (m : Rfi.Mask) : String := String.ofList (m.map (fun b => if b then '1' else '0'))
+
+def stepC16 (ts : List String) : String :=
+  match ts with
+  | "trace" :: C :: rest =>
+    match C.toNat? with
+    | none => "bad-op"
+    | some C =>
+      match ratList? (rest.take C), (rest.drop C) with
+      | some freqs, nops :: r2 =>
+        match nops.toNat? with
+        | none => "bad-op"
+        | some nops =>
+          match parseC16Ops C freqs nops r2 with
+          | some ops => " ; ".intercalate ((Rfi.trace (Rfi.init C) ops).map
+              (fun st => s!"{showMask st.chan} {showMask st.user} {showMask st.stats} {showMask st.custom}"))
+          | none => "bad-op"
+      | _, _ => "bad-op"
+  | _ => "bad-op"
+
 def step (line : String) : String :=
   match (line.trimAscii.toString.splitOn " ").filter (· ≠ "") with
   | "C03" :: rest => stepC03 rest
@@ -595,6 +641,7 @@ def step (line : String) : String :=
   | "C13" :: rest => stepC13 rest
   | "C14" :: rest => stepC14 rest
   | "C15" :: rest => stepC15 rest
+  | "C16" :: rest => stepC16 rest
   | "C04" :: rest => stepC04 rest
   | "C10" :: rest => stepC10 rest
   | _ => "bad-op"
